@@ -249,7 +249,7 @@ pub fn check(plans: &[Plan], recs: &[RunRec]) -> Outcome {
                     }
                 }
                 None => {
-                    if !h.panics.iter().any(|(t, _)| *t == 0) {
+                    if !h.panics.iter().any(|(t, _)| *t == 0) && l.t0_yields_back.is_some() {
                         out.violations
                             .push(Violation::new("no_readyok", format!("isready (line {i}) was not answered")));
                     }
